@@ -301,10 +301,13 @@ def check_typing(c, out, n, bonds, angles, dihedrals, types, exclude, rules, lab
             if not numbers_equal(nums, wnums):
                 raise Violation(kind + "-coefficients", "%s: %s %r (sequence %r%s) has coefficients %r, its own parameters are %r" %
                                 (label, kind, t, want[t][0], "" if want[t][1] is None else ", M=%d" % want[t][1], text, want[t][2]))
+            # the comment is not part of the statement; it is checked only when it has the current shape (one UFF type
+            # name per atom of the term, optionally M=<n>), so that a change of the comment format alone is no alarm
+            from mofun.uff4mof import UFF4MOF
             seqnames = [x for x in names if not x.startswith("M=")]
-            if seqkey(seqnames) != want[t][0]:
+            if len(seqnames) == len(t) and all(x in UFF4MOF for x in seqnames) and seqkey(seqnames) != want[t][0]:
                 raise Violation(kind + "-coefficient-comment", "%s: %s %r labelled %r, sequence is %r" % (label, kind, t, names, want[t][0]))
-            if kind == "dihedral" and ("M=%d" % want[t][1]) not in names:
+            if kind == "dihedral" and any(x.startswith("M=") for x in names) and ("M=%d" % want[t][1]) not in names:
                 raise Violation("dihedral-coefficient-comment", "%s: %r labelled %r, M is %d" % (label, t, names, want[t][1]))
         if out[kind + "_ntypes"] != len(by_type):
             raise Violation(kind + "-unused-types", "%s: %d coefficient rows for %d types in use" % (label, out[kind + "_ntypes"], len(by_type)))
